@@ -18,25 +18,6 @@ theorem isLiteral_isURIRef (s p : Term) :
     (Model.isLiteral s || !Model.isURIRef p) = !(Spec.isSubject s && Spec.isPredicate p) := by
   cases s <;> cases p <;> rfl
 
-theorem fillTriple_eq {n : Nat} (μ : Row n) (i : Nat) (tp : TTP) :
-    Model.fillTriple μ i tp = Spec.instTriple μ i tp := by
-  have e : ∀ x : TPos, Model.fillPos μ i x = Spec.instPos μ i x := by intro x; cases x <;> rfl
-  simp only [Model.fillTriple, Spec.instTriple, e]
-  cases Spec.instPos μ i tp.1 <;> cases Spec.instPos μ i tp.2.1 <;> cases Spec.instPos μ i tp.2.2 <;> try rfl
-  rename_i s p o
-  have := isLiteral_isURIRef s p
-  cases h : (Spec.isSubject s && Spec.isPredicate p) <;> simp_all
-
-theorem fillAll_eq {n : Nat} (tpl : List TTP) : ∀ (bag : List (Row n)) (i : Nat),
-    Model.fillAll tpl bag i = Spec.instTemplate tpl bag i
-  | [], _ => rfl
-  | μ :: rest, i => by
-    simp only [Model.fillAll, Spec.instTemplate, fillAll_eq tpl rest (i + 1)]
-    congr 1
-    apply List.filterMap_congr
-    intro tp _
-    exact fillTriple_eq μ i tp
-
 /-- a ground template position does not see the solution number -/
 theorem instPos_ground {n : Nat} (μ : Row n) (i j : Nat) (x : TPos) (h : x.isBlank = false) :
     Spec.instPos μ i x = Spec.instPos μ j x := by
